@@ -171,6 +171,7 @@ class OwnProfile(Profile):
         c = super().config(r)
         c["steps"] = r.randrange(30, 100)
         c["weights"] = swarm_weights(r, self.base, keep=self.keep)
+        c["deep"] = getattr(self, "tier", "quick") == "thorough" and r.random() < 0.4
         c["p_explicit_uuid"] = r.choice([0.6, 0.85, 1.0])
         c["p_ctor_parent"] = r.choice([0.2, 0.5, 0.8])
         c["p_ctor_kids"] = r.choice([0.1, 0.25, 0.5])
